@@ -670,7 +670,7 @@ def replay(ctx, obj):
     print("request : %s/%s input %d (1-based) of %d, %d outputs, hash type 0x%02x, code-separator offset %d, %d signature(s) to remove" % (
         r["coin"], r["sv"], r["i"], len(txj["ins"]), len(txj["outs"]), r["ht"], r["begin"], len(r["sigs"])))
     print("script  : %s" % bytes(r["script"]).hex())
-    if exp[0] == "digest":
+    if exp[0] == "digest" and term["d"][0]["k"] != "b":
         pre = term["d"][0]["x"]
         print("spec preimage (%s): %s" % (term["d"][0]["k"], drv.ev(pre).hex()))
     print("spec    : %s" % _fmt(exp))
